@@ -54,8 +54,34 @@ def _observe_a(r):
     yield ["Seq", ["TickS", 1], ["GPut", ["Bytes", "72"], r], ["Tick", 2, 1]]
 
 
+def _tx(**kw):
+    t = {"Sender": b"\x30" * 32, "Fee": 1000, "Amount": 0, "Receiver": bytes(32), "TypeEnum": 1, "Type": b"pay", "Note": b"",
+         "XferAsset": 0, "AssetAmount": 0}
+    t.update(kw)
+    return t
+
+
+_G3 = [_tx(Sender=b"\x31" * 32, Fee=2000, Amount=11, Receiver=b"\x41" * 32, Note=b"n0"),
+       None,  # the application call itself (filled in by the driver)
+       _tx(Sender=b"\x33" * 32, Fee=0, TypeEnum=4, Type=b"axfer", XferAsset=77, AssetAmount=(1 << 64) - 1, Note=b"n2")]
+for _i, _t in enumerate(_G3):
+    if _t is not None:
+        _t["GroupIndex"] = _i
+
+GROUP_INPUTS = [
+    {"args": [b"\x00", b"k"], "fields": dict(FIELDS1, Amount=0, Receiver=bytes(32), XferAsset=0, AssetAmount=0),
+     "gfields": GF1, "group": _G3, "group_index": 1,
+     "arrays": {"Accounts": [ADDR2, b"\x55" * 32], "Assets": [5, 6, 7], "Applications": [99]}},
+    {"args": [b"\x01", b"k"], "fields": dict(FIELDS1, Amount=0, Receiver=bytes(32), XferAsset=0, AssetAmount=0),
+     "gfields": GF1, "group": _G3, "group_index": 1,
+     "arrays": {"Accounts": [], "Assets": [5], "Applications": []}},
+    {"args": [b"\x02"], "fields": FIELDS1, "gfields": GF1, "arrays": {"Accounts": [ADDR2], "Assets": [], "Applications": [1, 2, 3]}},
+]
+
+
 def programs():
     out = []
+    gout = []
     for f in TXN_U:
         for m in _observe_u(["TxnField", f]):
             out.append(m)
@@ -88,6 +114,16 @@ def programs():
     # array reads with constant and computed index
     for i in (0, 1, 2):
         out.append(["Seq", ["Log", ["Arg", i]], ["Int", 1]])
+    # other transactions of the group (constant and computed index) and the foreign arrays
+    for f in ("Sender", "Fee", "Amount", "Receiver", "TypeEnum", "Note", "XferAsset", "AssetAmount", "GroupIndex"):
+        obs = _observe_u if f in ("Fee", "Amount", "TypeEnum", "XferAsset", "AssetAmount", "GroupIndex") else _observe_b
+        for idx in (0, 1, 2, 3, ["Btoi", ["Arg", 0]], ["Add", ["Btoi", ["Arg", 0]], ["Int", 1]]):
+            for m in obs(["GtxnField", idx, f]):
+                gout.append(m)
+    for arr, obs in (("Accounts", _observe_b), ("Assets", _observe_u), ("Applications", _observe_u), ("ApplicationArgs", _observe_b)):
+        for idx in (0, 1, 2, 3, ["Btoi", ["Arg", 0]], ["Mul", ["Btoi", ["Arg", 0]], ["Int", 2]]):
+            for m in obs(["TxnArr", arr, idx]):
+                gout.append(m)
     # inner transactions
     pay = [["TypeEnum", ["Int", 1]], ["Amount", ["Tick", 1, 7]], ["Receiver", ["TxnField", "Sender"]],
            ["Fee", ["Tick", 2, 0]]]
@@ -104,3 +140,5 @@ def programs():
             out.append(["Seq", ["TickS", 6], ["Itxn", style, g], ["Tick", 7, 1]])
     for m in out:
         yield 1, _prog(m), INPUTS, 2
+    for m in gout:
+        yield 1, _prog(m), GROUP_INPUTS, 2
